@@ -291,6 +291,9 @@ def canon(t, roles=None):
             return 'this.' + t['name']
         if isinstance(b, dict) and b.get('k') == 'un' and b['op'] == '*' and strip_casts(b['e']).get('k') == 'this':
             return 'this.' + t['name']
+        if isinstance(b, dict) and b.get('k') == 'un' and b['op'] == '&':
+            # (&x)->f is x.f
+            return '%s.%s' % (canon(b['e'], roles), t['name'])
         return '%s.%s' % (canon(b, roles), t['name'])
     if k == 'lit':
         if t.get('null'):
